@@ -177,7 +177,16 @@ def _run(ctx, case, net):
                 r["table_after_lookup"] = {a: b for a, b in master.obj.dhcp_dict.items() if a < 1000}
                 r["cc"] = net.call(nn, "check_connection", o.check_connection, deadline_ms=3000)
                 r["sends"] = []
-                for tgt2 in others[:4]:
+                tab_now = master.obj.dhcp_dict
+                # targets on as many different levels as possible (deepest first)
+                pick = sorted(others, key=lambda j: (-net_ref.level(tab_now.get(j, 0)), j))
+                seen_l, tg = set(), []
+                for j in pick:
+                    l = net_ref.level(tab_now.get(j, 0))
+                    if l not in seen_l or len(tg) < 3:
+                        seen_l.add(l)
+                        tg.append(j)
+                for tgt2 in tg[:5]:
                     payload = bytes([k, tgt2]) + b"mesh-send"  # single frame: fragmented multi-hop is C05's known finding
                     r["sends"].append((tgt2, payload, net.call(nn, "send", o.send, tgt2, "M", payload, deadline_ms=3000)))
                     pump_until(nn, wn.t + 15 * W.MS)
